@@ -69,6 +69,10 @@ def run(d, tier="quick"):
         shutil.rmtree(wt, ignore_errors=True)
     print(json.dumps(results, indent=1))
     detected = all(any(l.startswith("VIOLATION") for l in r["lines"]) for r in results.values())
+    if "harmless" in meta.get("kind", ""):
+        silent = all(r["rc"] == 0 and not any(l.startswith("VIOLATION") for l in r["lines"]) for r in results.values())
+        print("SILENT (as required)" if silent else "FALSE ALARM")
+        return 0 if silent else 1
     print("DETECTED" if detected else "MISSED")
     return 0 if detected else 1
 
